@@ -382,10 +382,16 @@ pub fn skip(s: &DataModelType, rd: &mut Rd) -> Result<(), K> {
         DataModelType::Struct { data, .. } => skip_data(data, rd),
         DataModelType::Enum { variants, .. } => {
             let idx = rd.varint(32)?;
-            if idx >= variants.len() as u128 {
-                return Err(K::Other);
+            // (concrete loop over the variants: a symbolic index into the schema would make the schema
+            // node itself symbolic for CBMC)
+            let mut i = 0;
+            while i < variants.len() {
+                if idx == i as u128 {
+                    return skip_data(&variants[i].data, rd);
+                }
+                i += 1;
             }
-            skip_data(&variants[idx as usize].data, rd)
+            Err(K::Other)
         }
         DataModelType::Schema => Err(K::Other),
     }
